@@ -1,5 +1,5 @@
 import ChythonModel.Model.C05Thiele
-import ChythonModel.Proofs.C05Check
+import ChythonModel.Proofs.C05Sound
 /-!
 # C05 — facts about the ring-eligibility model of `thiele()`
 -/
@@ -182,5 +182,129 @@ theorem thieleNoFix_false_unchanged (m : Mol) (sssr : List (List Nat)) (t : Mol)
         · simp only [Option.some.injEq, Prod.mk.injEq] at h; exact h.2.symm
         · simp only [Option.some.injEq, Prod.mk.injEq] at h
           exact absurd h.1 (by decide)
+
+end ChythonModel.Proofs.C05
+
+namespace ChythonModel.Proofs.C05
+open ChythonModel.Model ChythonModel.Model.C05T ChythonModel.Spec.Kekule
+
+/-- positional: same keys, every order is the old one or one of `S` -/
+def ordersIn (S : List Nat) (m t : Mol) : Bool :=
+  all2 (fun r s => r.1 == s.1 && all2 (fun p q => p.1 == q.1 && (q.2.order == p.2.order || S.contains q.2.order)) r.2 s.2)
+    m.adj t.adj
+
+theorem all2_refl {α : Type} {f : α → α → Bool} (h : ∀ x, f x x = true) : ∀ l : List α, all2 f l l = true := by
+  intro l
+  induction l with
+  | nil => rfl
+  | cons x xs ih => simp [all2, h x, ih]
+
+theorem all2_map_right {α β : Type} {f : α → β → Bool} (g : β → β) (hg : ∀ x y, f x y = true → f x (g y) = true) :
+    ∀ {xs : List α} {ys : List β}, all2 f xs ys = true → all2 f xs (ys.map g) = true := by
+  intro xs
+  induction xs with
+  | nil => intro ys h; rw [all2_nil_left h]; rfl
+  | cons x xs ih =>
+    intro ys h
+    obtain ⟨y, ys', rfl, hxy, hrest⟩ := all2_cons h
+    simp only [List.map_cons, all2, hg x y hxy, ih hrest, Bool.and_self]
+
+theorem ordersIn_refl (S : List Nat) (m : Mol) : ordersIn S m m = true := by
+  unfold ordersIn
+  apply all2_refl
+  intro r
+  simp only [beq_self_eq_true, Bool.true_and]
+  apply all2_refl
+  intro p
+  simp
+
+/-- one assignment `bonds[a][b]._order = o` with `o ∈ S` keeps `ordersIn S` -/
+theorem ordersIn_setOrderT (S : List Nat) (m t : Mol) (a b o : Nat) (ho : S.contains o = true)
+    (h : ordersIn S m t = true) : ordersIn S m (setOrderT t a b o) = true := by
+  unfold ordersIn at h ⊢
+  unfold setOrderT
+  simp only
+  apply all2_map_right _ _ h
+  intro r s hrs
+  simp only [Bool.and_eq_true, beq_iff_eq] at hrs
+  have inner : ∀ (c : Nat), all2 (fun p q => p.1 == q.1 && (q.2.order == p.2.order || S.contains q.2.order)) r.2
+      (s.2.map fun q => if q.1 == c then (q.1, { q.2 with order := o }) else q) = true := by
+    intro c
+    apply all2_map_right _ _ hrs.2
+    intro p q hpq
+    split
+    · simp only [Bool.and_eq_true, beq_iff_eq] at hpq
+      simp only [Bool.and_eq_true, beq_iff_eq, hpq.1, ho, Bool.or_true, and_self]
+    · exact hpq
+  have hk : (r.1 == s.1) = true := by simp [hrs.1]
+  split
+  · rw [Bool.and_eq_true]
+    exact ⟨hk, inner b⟩
+  · split
+    · rw [Bool.and_eq_true]
+      exact ⟨hk, inner a⟩
+    · rw [Bool.and_eq_true]
+      exact ⟨hk, hrs.2⟩
+
+theorem ordersIn_foldl_edges (S : List Nat) (o : Nat) (ho : S.contains o = true) :
+    ∀ (es : List (Nat × Nat)) (m t : Mol), ordersIn S m t = true →
+      ordersIn S m (es.foldl (fun m e => setOrderT m e.1 e.2 o) t) = true := by
+  intro es
+  induction es with
+  | nil => intro m t h; exact h
+  | cons e es ih =>
+    intro m t h
+    simp only [List.foldl_cons]
+    exact ih m _ (ordersIn_setOrderT S m t e.1 e.2 o ho h)
+
+theorem ordersIn_foldl_rings (S : List Nat) (o : Nat) (ho : S.contains o = true) :
+    ∀ (rs : List (List Nat)) (m t : Mol), ordersIn S m t = true →
+      ordersIn S m (rs.foldl (fun m r => (ringEdges r).foldl (fun m e => setOrderT m e.1 e.2 o) m) t) = true := by
+  intro rs
+  induction rs with
+  | nil => intro m t h; exact h
+  | cons r rs ih =>
+    intro m t h
+    simp only [List.foldl_cons]
+    exact ih m _ (ordersIn_foldl_edges S o ho (ringEdges r) m t h)
+
+/-- the model of `thiele(fix_tautomers=False)` only ever writes "single" or "aromatic" -/
+theorem thieleNoFix_orders (m : Mol) (sssr : List (List Nat)) (r : Bool) (t : Mol)
+    (h : thieleNoFix m sssr = some (r, t)) : ordersIn [1, 4] m t = true := by
+  unfold thieleNoFix at h
+  simp only at h
+  split at h
+  · cases h
+  · split at h
+    · simp only [Option.some.injEq, Prod.mk.injEq] at h; rw [← h.2]; exact ordersIn_refl _ m
+    · split at h
+      · simp only [Option.some.injEq, Prod.mk.injEq] at h; rw [← h.2]; exact ordersIn_refl _ m
+      · split at h
+        · simp only [Option.some.injEq, Prod.mk.injEq] at h; rw [← h.2]; exact ordersIn_refl _ m
+        · simp only [Option.some.injEq, Prod.mk.injEq] at h
+          rw [← h.2]
+          apply ordersIn_foldl_edges [1, 4] 4 (by decide)
+          apply ordersIn_foldl_rings [1, 4] 1 (by decide)
+          exact ordersIn_refl _ m
+
+/-- … in terms of the public look-up: every bond of the input is still there, unchanged or single or aromatic -/
+theorem thieleNoFix_bonds (m : Mol) (sssr : List (List Nat)) (r : Bool) (t : Mol)
+    (h : thieleNoFix m sssr = some (r, t)) (n k : Nat) (b : Bond) (hb : m.bond? n k = some b) :
+    ∃ b', t.bond? n k = some b' ∧ (b'.order = b.order ∨ b'.order = 1 ∨ b'.order = 4) := by
+  have ho := thieleNoFix_orders m sssr r t h
+  unfold ordersIn at ho
+  obtain ⟨b', hb', hg⟩ := bond_of_rows
+    (f := fun r s => r.1 == s.1 && all2 (fun p q => p.1 == q.1 && (q.2.order == p.2.order || [1, 4].contains q.2.order)) r.2 s.2)
+    (g := fun _ p q => p.1 == q.1 && (q.2.order == p.2.order || [1, 4].contains q.2.order))
+    (fun r s h => by simp only [Bool.and_eq_true, beq_iff_eq] at h; exact h.1)
+    (fun _ p q h => by simp only [Bool.and_eq_true, beq_iff_eq] at h; exact h.1)
+    (fun n ms ms' h => by simp only [Bool.and_eq_true] at h; exact h.2) ho hb
+  refine ⟨b', hb', ?_⟩
+  simp only [Bool.and_eq_true, Bool.or_eq_true, beq_iff_eq, List.contains_iff_mem, List.mem_cons, List.mem_nil_iff,
+    or_false] at hg
+  rcases hg.2 with e | e | e
+  · exact Or.inl e
+  · exact Or.inr (Or.inl e)
+  · exact Or.inr (Or.inr e)
 
 end ChythonModel.Proofs.C05
